@@ -48,6 +48,10 @@ func c13Size(r *fw.Rand, mtu int) int {
 	if r.Chance(1, 60) {
 		s = r.Pick(16382, 16383, 16384, 16385, 16386)
 	}
+	if mtu > 3 && r.Chance(1, 6) {
+		// k full packets (mtu-1 bytes of OBU each) plus a remainder of 0-3 bytes (the OBU header is 1-2 bytes of the total)
+		s = r.Range(1, 5)*(mtu-1) + r.Pick(-2, -1, 0, 1, 2, 3)
+	}
 	if s < 0 {
 		s = 0
 	}
@@ -168,7 +172,18 @@ func c13Judge(c *fw.Ctx, i int, mtu int, obus []ref.OBU, sizeOnLast bool) {
 	r := c.R
 	_ = r
 	var in []byte
+	nonMinimal := r.Chance(1, 8)
 	for k := range obus {
+		if (k < len(obus)-1 || sizeOnLast) && nonMinimal && len(obus[k].Payload) < 1<<14 {
+			// leb128() may carry superfluous continuation bytes (AV1 spec 4.10.5): same value, longer encoding
+			in = append(in, obus[k].Header(true)...)
+			sz := ref.LEB128(uint64(len(obus[k].Payload)))
+			sz[len(sz)-1] |= 0x80
+			sz = append(sz, 0x00)
+			in = append(in, sz...)
+			in = append(in, obus[k].Payload...)
+			continue
+		}
 		in = append(in, obus[k].Raw(k < len(obus)-1 || sizeOnLast)...)
 	}
 	var expect [][]byte // transmitted form: header without size + payload
